@@ -292,7 +292,7 @@ func (x *Exec) applyContractClosure(st *State, site ssa.Instruction, callee *ssa
 	}
 	env2.bindResults(callee, results)
 	for _, en := range ct.Ensures {
-		if en.AssumeScoped && len(en.Props) > 0 && x.prop != "" && !hasProp(en.Props, x.prop) {
+		if len(en.Props) > 0 && x.prop != "" && !hasProp(en.Props, x.prop) {
 			continue // clause scoped to other properties (label@~Cxx): not used in this run
 		}
 		t := env2.eval(en.Expr)
